@@ -1,7 +1,8 @@
 (* C18 — proofs, part 5 (theorem audit): oracle equivalences for every decision
    the driver takes, the exact throttle actions validation builds, the
    index-based GetCurrentThrottle against the declarative [throttle_at]. *)
-From Coq Require Import List ZArith Bool Ascii Arith Lia Sorted.
+From Coq Require Import Ascii String.
+From Coq Require Import List ZArith Bool Arith Lia Sorted.
 From Martian.C18 Require Import Gen_Shape Model Proofs Proofs_Validate Proofs_Loop.
 Import ListNotations.
 Open Scope Z_scope.
@@ -394,3 +395,45 @@ Proof.
     apply nth_error_In in N. rewrite Forall_forall in F2. specialize (F2 a N).
     rewrite Z.geb_leb. apply Z.leb_le. exact F2.
 Qed.
+
+(* ------------------------------------------------------------------ *)
+(* GetRangeStart                                                        *)
+(* ------------------------------------------------------------------ *)
+
+Definition all_digits (d : list ascii) : Prop := Forall (fun c => is_digit c = true) d.
+
+Lemma span_digits_app d r : all_digits d ->
+  match r with [] => True | c :: _ => is_digit c = false end ->
+  span_digits (d ++ r) = (d, r).
+Proof.
+  intros Hd Hr. induction Hd as [|c d Hc Hd IH]; cbn [app].
+  - destruct r as [|c r']; [reflexivity|]. cbn [span_digits]. rewrite Hr. reflexivity.
+  - cbn [span_digits]. rewrite Hc, IH. reflexivity.
+Qed.
+
+(* a well-formed single range "bytes a-b/t" (t a number, or "*" for the RFC reading):
+   the start is a, read as an int64; -1 when it does not fit *)
+Lemma range_start_wellformed star (a b t : list ascii) rest :
+  all_digits a -> a <> [] -> all_digits b -> b <> [] ->
+  (match t with c :: _ => is_digit c = true \/ (star = true /\ c = "*"%char) | [] => False end) ->
+  range_start_gen star 206 false (list_ascii_of_string "bytes " ++ a ++ "-"%char :: b ++ "/"%char :: t ++ rest)
+  = match parse_int64 a with Some v => v | None => -1 end.
+Proof.
+  intros Ha Na Hb Nb Ht. unfold range_start_gen. cbn [Z.eqb negb Pos.eqb].
+  change (list_ascii_of_string "bytes ") with ["b"; "y"; "t"; "e"; "s"; " "]%char.
+  cbn [app find_cr starts_with Ascii.eqb Bool.eqb andb skipn].
+  unfold match_cr_at.
+  rewrite (span_digits_app a ("-"%char :: b ++ "/"%char :: t ++ rest) Ha eq_refl).
+  destruct a as [|a0 a']; [congruence|].
+  rewrite (span_digits_app b ("/"%char :: t ++ rest) Hb eq_refl).
+  destruct b as [|b0 b']; [congruence|].
+  destruct t as [|c t']; [destruct Ht|]. cbn [app].
+  assert (is_digit c || (star && Ascii.eqb c "*"%char) = true) as ->; [|reflexivity].
+  destruct Ht as [Ht|[-> ->]]; [rewrite Ht; reflexivity | apply orb_true_r].
+Qed.
+
+Lemma range_start_not_partial star status mp cr : status <> 206 -> range_start_gen star status mp cr = 0.
+Proof. intros H. unfold range_start_gen. apply Z.eqb_neq in H. rewrite H. reflexivity. Qed.
+
+Lemma range_start_multipart star cr : range_start_gen star 206 true cr = -1.
+Proof. reflexivity. Qed.
